@@ -111,7 +111,11 @@ func (s *Solver) emit(t *Term) {
 	if t.Op == "var" {
 		s.send(fmt.Sprintf("(declare-const %s %s)", t.Name, t.S.smt()))
 	} else {
-		s.send(fmt.Sprintf("(define-fun t%d () %s %s)", t.id, t.S.smt(), t.body()))
+		// a named constant constrained by an equation, not a define-fun macro:
+		// z3 expands macros at every use, which turns the shared DAG of nested
+		// table look-ups (ite chains) into an exponentially larger tree
+		s.send(fmt.Sprintf("(declare-const t%d %s)", t.id, t.S.smt()))
+		s.send(fmt.Sprintf("(assert (= t%d %s))", t.id, t.body()))
 	}
 	t.epoch = 1
 	top := len(s.scopes) - 1
